@@ -529,6 +529,10 @@ pub fn spaces(tier: Tier) -> Vec<Space<'static>> {
             }
         }));
     }
+    {
+        let tv = refmodel::gen::tagv_docs();
+        sp.push(Space::new("tag-like payloads and keyword keys", tv.len() as u64, move |i, acc| check_doc(&tv[i as usize], acc, false)));
+    }
     let co = case_objects();
     sp.push(Space::new("case-variant-objects", co.len() as u64, move |i, acc| check_doc(&co[i as usize], acc, false)));
     // casts on every scalar of SW + B64 + SSTR
